@@ -17,7 +17,9 @@
 (*                                                                         *)
 (* Glyphs: 0 .notdef, 1 A, 2 B, 7 C (bases), 3 L (ligature), 4 M1 (mark,   *)
 (* attachment class 1, in mark set 0), 5 M2 (mark, class 2, not in set 0), *)
-(* 6 U (no GDEF class).  Metric values are chosen distinct per field so    *)
+(* 6 U (no GDEF class); the *-gdef families put the same programs into     *)
+(* fonts without GDEF / GlyphClassDef or with M1 / M2 not classed as marks.*)
+(* Metric values are chosen distinct per field so                          *)
 (* that any mix-up of fields, records, classes or anchors changes a result.*)
 (***************************************************************************)
 EXTENDS Gpos, Position, Json, SequencesExt
@@ -30,9 +32,22 @@ vars == <<tpl, w, done>>
 Quick == Tier = "quick"
 
 \* ---- fixed font data ---------------------------------------------------------
-Gdef == [cls  |-> <<0, 1, 1, 2, 3, 3, 0, 1>>,
+Gdef == [tab  |-> "full",
+         cls  |-> <<0, 1, 1, 2, 3, 3, 0, 1>>,
          att  |-> <<0, 0, 0, 0, 1, 2, 0, 0>>,
          sets |-> << <<4>> >>]
+\* GDEF variants: what the font says about the glyphs the lookups treat as marks (4 and 5)
+\*   "absent"      no GDEF table            "noclassdef"  GDEF without GlyphClassDef
+\*   "m1-uncl"     M1 left unclassified     "m2-uncl"     M2 left unclassified
+\*   "m2-base"     M2 classed as a base glyph
+GdefV(v) ==
+  CASE v = "full"       -> Gdef
+    [] v = "absent"     -> [Gdef EXCEPT !.tab = "absent"]
+    [] v = "noclassdef" -> [Gdef EXCEPT !.tab = "noclassdef"]
+    [] v = "m1-uncl"    -> [Gdef EXCEPT !.cls[5] = 0]
+    [] v = "m2-uncl"    -> [Gdef EXCEPT !.cls[6] = 0]
+    [] v = "m2-base"    -> [Gdef EXCEPT !.cls[6] = 1]
+GdefVariants == {"absent", "noclassdef", "m1-uncl", "m2-uncl", "m2-base"}
 \* hmtx advances; marks have zero advance (m = 0) or advances of their own (m = 1)
 AdvOf(m) == <<500, 137, 241, 353, IF m = 0 THEN 0 ELSE 61, IF m = 0 THEN 0 ELSE 83, 467, 571>>
 
@@ -56,6 +71,10 @@ Prog(tag, script, lookups, feat, kern, gpos, m) ==
   [gdef |-> Gdef, adv |-> AdvOf(m), tag |-> tag, script |-> script, lookups |-> lookups,
    feat |-> feat, kern |-> kern, gpos |-> gpos]
 
+\* the same program in a font whose GDEF is the variant gv
+ProgG(gv, tag, script, lookups, feat, kern, gpos, m) ==
+  [Prog(tag, script, lookups, feat, kern, gpos, m) EXCEPT !.gdef = GdefV(gv)]
+
 T(id, prog, alpha, n) == [id |-> id, prog |-> prog, alpha |-> alpha, n |-> n]
 
 \* lookup flags with their mark filtering set
@@ -75,6 +94,15 @@ SingleFlag ==
                <<[f |-> 2, cov |-> Cov(cf, <<1, 2, 3, 4, 5, 6>>), vf |-> 7, vs |-> [k \in 1 .. 6 |-> V(k)]]>>)>>,
           <<0>>, <<>>, TRUE, 1),
      Items({1, 2, 3, 4, 5, 6}), 2) : fl \in Flags, cf \in {1, 2}, ext \in BOOLEAN}
+
+\* lookup flags in a font without glyph classes: nothing may be skipped
+SingleFlagG ==
+  {T(<<"single2-flag-gdef", fl[1], gv>>,
+     ProgG(gv, "kern", "latn",
+           <<Lk(1, fl[1], fl[2], FALSE,
+                <<[f |-> 2, cov |-> Cov(1, <<1, 2, 3, 4, 5, 6>>), vf |-> 7, vs |-> [k \in 1 .. 6 |-> V(k)]]>>)>>,
+           <<0>>, <<>>, TRUE, 1),
+     Items({1, 2, 3, 4, 5, 6}), 2) : fl \in Flags, gv \in {"absent", "noclassdef", "m2-uncl"}}
 
 Single2 ==
   {T(<<"single2-vf", vf, cf>>,
@@ -108,6 +136,12 @@ Pair1Long ==
      Prog("kern", "latn", <<Lk(2, fl[1], fl[2], ext, <<Pair1Sub(2, vv[1], vv[2])>>)>>, <<0>>, <<>>, TRUE, 1),
      Items({1, 2, 4, 5}), 4) :
      vv \in {<<5, 5>>, <<4, 0>>, <<4, 4>>}, fl \in {<<0, -1>>, <<8, -1>>, <<256, -1>>, <<16, 0>>}, ext \in BOOLEAN}
+
+Pair1LongG ==
+  {T(<<"pair1-long-gdef", fl[1], gv>>,
+     ProgG(gv, "kern", "latn", <<Lk(2, fl[1], fl[2], FALSE, <<Pair1Sub(2, 5, 5)>>)>>, <<0>>, <<>>, TRUE, 1),
+     Items({1, 2, 4, 5}), 4) :
+     fl \in {<<8, -1>>, <<256, -1>>, <<16, 0>>}, gv \in {"absent", "noclassdef", "m1-uncl"}}
 
 Pair2Sub(cf, vf1, vf2) ==
   [f |-> 2, cov |-> Cov(cf, <<1, 2, 3>>), vf1 |-> vf1, vf2 |-> vf2,
@@ -170,6 +204,16 @@ MarkBase ==
      Items({1, 2, 3, 4, 5, 6}), IF af = 1 /\ cf = 1 /\ ~ext THEN 4 ELSE 3) :
      cf \in {1, 2}, af \in {1, 2, 3}, m \in {0, 1}, ext \in BOOLEAN}
 
+\* mark coverage glyphs that GDEF does not class as marks: the lookup attaches them all the same
+MarkBaseG ==
+  {T(<<"markbase-gdef", gv, cf, m>>,
+     ProgG(gv, "mark", "latn", <<Lk(4, 0, -1, FALSE, <<MarkBaseSub(cf, 1)>>)>>, <<0>>, <<>>, TRUE, m),
+     Items({1, 2, 3, 4, 5, 6}), 3) : gv \in GdefVariants, cf \in {1, 2}, m \in {0, 1}}
+  \cup
+  {T(<<"markbase-gdef-long", gv, m>>,
+     ProgG(gv, "mark", "latn", <<Lk(4, 0, -1, TRUE, <<MarkBaseSub(1, 2)>>)>>, <<0>>, <<>>, TRUE, m),
+     Items({1, 4, 5}), 4) : gv \in GdefVariants, m \in {0, 1}}
+
 \* second subtable serves what the first cannot (B has no anchor for class 1 in the first)
 MarkBaseMulti ==
   {T(<<"markbase-multi", m>>,
@@ -191,6 +235,12 @@ MarkLig ==
      {It(3), It(1), ItC(4, 0), ItC(4, 1), ItC(4, 2), ItC(5, 0), ItC(5, 1)}, 3) :
      cf \in {1, 2}, af \in {1, 3}, m \in {0, 1}}
 
+MarkLigG ==
+  {T(<<"marklig-gdef", gv, m>>,
+     ProgG(gv, "mark", "latn", <<Lk(5, 0, -1, FALSE, <<MarkLigSub(1, 1)>>)>>, <<0>>, <<>>, TRUE, m),
+     {It(3), It(1), ItC(4, 0), ItC(4, 1), ItC(4, 2), ItC(5, 0), ItC(5, 1)}, 3) :
+     gv \in GdefVariants, m \in {0, 1}}
+
 MarkMarkSub(cf, af, m1, m2) ==
   [mcov |-> Cov(cf, m1), bcov |-> Cov(cf, m2), nc |-> 2,
    marks |-> [k \in 1 .. Len(m1) |-> [c |-> (k - 1) % 2, a |-> An(af, k)]],
@@ -206,6 +256,14 @@ MarkMark ==
           <<0>>, <<>>, TRUE, m),
      Items(IF fl[1] = 0 THEN {1, 4, 5, 6} ELSE {1, 4, 5}), 4) :
      fl \in {<<0, -1>>, <<256, -1>>, <<16, 0>>}, cf \in {1, 2}, m \in {0, 1}}
+
+\* MarkMark where GDEF does not class (all of) the covered glyphs as marks; flag 0, both coverages
+\* list every glyph that can count as a mark (MkMkFragment below)
+MarkMarkG ==
+  {T(<<"markmark-gdef", gv, cf, m>>,
+     ProgG(gv, "mkmk", "latn", <<Lk(6, 0, -1, FALSE, <<MarkMarkSub(cf, 1, <<4, 5>>, <<4, 5>>)>>)>>,
+           <<0>>, <<>>, TRUE, m),
+     Items({1, 4, 5, 6}), 4) : gv \in GdefVariants, cf \in {1, 2}, m \in {0, 1}}
 
 \* ---- types 7, 8 ---------------------------------------------------------------------
 \* nested lookups (not listed in the feature): index 1 single, 2 pair, 3 markbase, 4 markmark,
@@ -258,6 +316,13 @@ Ctx ==
      Items({1, 2, 4, 6}), 4) :
      ty \in {7, 8}, f \in {1, 2, 3}, fl \in {0, 8}, nf \in {0, 8}, ext \in BOOLEAN}
 
+\* nested Mark* lookups and flags of context lookups in fonts without (complete) glyph classes
+CtxG ==
+  {T(<<"ctx-gdef", gv, ty, f, fl>>,
+     ProgG(gv, "kern", "latn", <<Lk(ty, fl, -1, FALSE, CtxSubs(ty, f))>> \o NestedLookups(fl), <<0>>, <<>>, TRUE, 1),
+     Items({1, 2, 4, 6}), 3) :
+     gv \in {"absent", "m1-uncl"}, ty \in {7, 8}, f \in {1, 2, 3}, fl \in {0, 8}}
+
 \* ---- several lookups adjusting the same glyphs (accumulation, order) -------------------
 SingleOn(cov, vf, r) == Lk(1, 0, -1, FALSE, <<[f |-> 1, cov |-> Cov(1, cov), vf |-> vf, v |-> V(r)]>>)
 MultiOf(m) ==
@@ -282,6 +347,22 @@ MultiOf(m) ==
           <<1, 0>>, <<>>, TRUE, m), Items({1, 2, 4}), 3)}
 Multi == MultiOf(0) \cup MultiOf(1)
 
+\* attachment by one lookup decides what later lookups take for a mark (Dev_MarkAttachedIsMark)
+MultiG ==
+  {T(<<"multi-gdef", "markbase+markmark", gv, m>>,
+     ProgG(gv, "mark", "latn", <<Lk(4, 0, -1, FALSE, <<MarkBaseSub(1, 1)>>),
+                                 Lk(6, 0, -1, FALSE, <<MarkMarkSub(1, 1, <<4, 5>>, <<4, 5>>)>>)>>,
+           <<0, 1>>, <<>>, TRUE, m), Items({1, 2, 4, 5}), 4) : gv \in GdefVariants, m \in {0, 1}}
+  \cup
+  {T(<<"multi-gdef", "mark-displaced+mark", gv, m>>,
+     ProgG(gv, "mark", "latn", <<SingleOn(<<4, 5>>, 3, 3), Lk(4, 0, -1, FALSE, <<MarkBaseSub(1, 1)>>), SingleOn(<<5>>, 7, 2)>>,
+           <<0, 1, 2>>, <<>>, TRUE, m), Items({1, 2, 4, 5}), 3) : gv \in {"absent", "m2-uncl"}, m \in {0, 1}}
+  \cup
+  {T(<<"multi-gdef", "markbase+marklig", gv, m>>,
+     ProgG(gv, "mark", "latn", <<Lk(5, 0, -1, FALSE, <<MarkLigSub(1, 1)>>), Lk(4, 0, -1, FALSE, <<MarkBaseSub(2, 3)>>)>>,
+           <<0, 1>>, <<>>, TRUE, m), {It(3), It(1), ItC(4, 0), ItC(4, 1), ItC(5, 0), ItC(5, 2)}, 3) :
+     gv \in {"absent", "m1-uncl"}, m \in {0, 1}}
+
 \* ---- legacy kern ---------------------------------------------------------------------------
 K0(cov, ps) == [f |-> 0, cov |-> cov, pairs |-> ps]
 PairsA == << <<1, 2, -30>>, <<1, 4, 12>>, <<2, 1, 25>>, <<4, 2, -7>> >>
@@ -297,6 +378,23 @@ K2(cov, nr, base) ==
    rt |-> [first |-> 2, vals |-> rvals],
    arr |-> <<0, 0, 0, 5, -11, 21, -33, 45, -57>>]
 
+\* coverage bits: 1 horizontal, 2 minimum, 4 cross-stream, 8 override; 0 in bit 0 = vertical
+KernCrossTables ==
+  {<<"cross", <<K0(5, PairsA)>> >>,
+   <<"h+cross", <<K0(1, PairsA), K0(5, PairsB)>> >>,
+   <<"cross+h", <<K0(5, PairsB), K0(1, PairsA)>> >>,
+   <<"h+cross+h", <<K0(1, PairsA), K0(5, PairsA), K0(1, PairsB)>> >>,
+   <<"h+cross-override", <<K0(1, PairsA), K0(13, PairsB)>> >>,
+   <<"h+override+cross", <<K0(1, PairsA), K0(9, PairsB), K0(5, PairsA)>> >>,
+   <<"h+cross-minimum", <<K0(1, PairsA), K0(7, PairsB)>> >>,
+   <<"cross+cross-override", <<K0(5, PairsA), K0(13, PairsB), K0(1, PairsB)>> >>,
+   <<"h+vcross", <<K0(1, PairsA), K0(4, PairsB)>> >>,
+   <<"h+v-override", <<K0(1, PairsA), K0(8, PairsB)>> >>,
+   <<"h+v-minimum", <<K0(1, PairsA), K0(2, PairsB)>> >>,
+   <<"h+vcross-override", <<K0(1, PairsA), K0(12, PairsB)>> >>,
+   <<"h+fmt2-cross", <<K0(1, PairsA), K2(5, 3, "array")>> >>,
+   <<"fmt2-cross", <<K2(5, 3, "array")>> >>}
+
 KernTables ==
   {<<"h", <<K0(1, PairsA)>> >>,
    <<"v", <<K0(0, PairsA)>> >>,
@@ -309,7 +407,7 @@ KernTables ==
    <<"fmt2-long", <<K2(1, 6, "array")>> >>,
    <<"fmt2-fit-apple", <<K2(1, 3, "subtable")>> >>,
    <<"h+fmt2", <<K0(1, PairsA), K2(1, 3, "array")>> >>,
-   <<"fmt2+h", <<K2(1, 3, "array"), K0(1, PairsA)>> >>}
+   <<"fmt2+h", <<K2(1, 3, "array"), K0(1, PairsA)>> >>} \cup KernCrossTables
 
 KernFallback ==
   {T(<<"kern-fallback", kt[1]>>, Prog("kern", "latn", <<>>, <<>>, kt[2], FALSE, 1), Items({1, 2, 3, 4, 6}), 3) :
@@ -317,17 +415,24 @@ KernFallback ==
 KernWithGpos ==
   {T(<<"kern+gpos-mark", kt[1]>>,
      Prog("mark", "latn", <<Lk(4, 0, -1, FALSE, <<MarkBaseSub(1, 1)>>)>>, <<0>>, kt[2], TRUE, 1),
-     Items({1, 2, 4, 6}), 3) : kt \in {k \in KernTables : k[1] \in {"h", "h+h", "h+override"}}}
+     Items({1, 2, 4, 6}), 3) : kt \in {k \in KernTables : k[1] \in {"h", "h+h", "h+override", "h+cross", "cross+h",
+                                                                    "h+cross-override"}}}
 \* a GPOS `dist` feature adjusting advances, and a kern table for the same glyphs
 KernWithDist ==
   {T(<<"kern+gpos-dist", kt[1]>>,
      Prog("dist", "latn", <<SingleOn(<<1, 2, 4>>, 4, 2)>>, <<0>>, kt[2], TRUE, 1),
-     Items({1, 2, 4}), 3) : kt \in {k \in KernTables : k[1] \in {"h"}}}
+     Items({1, 2, 4}), 3) : kt \in {k \in KernTables : k[1] \in {"h", "h+cross", "h+vcross"}}}
+\* a kern table with cross-stream subtables next to a GPOS without GDEF
+KernWithGposG ==
+  {T(<<"kern+gpos-mark-gdef", kt[1], gv>>,
+     ProgG(gv, "mark", "latn", <<Lk(4, 0, -1, FALSE, <<MarkBaseSub(1, 1)>>)>>, <<0>>, kt[2], TRUE, 1),
+     Items({1, 2, 4, 5}), 3) : kt \in {k \in KernTables : k[1] \in {"h", "h+cross"}}, gv \in {"absent", "m2-uncl"}}
 
 Templates ==
   SingleVf \cup SingleFlag \cup Single2 \cup SingleMulti \cup Pair1Vf \cup Pair1Long \cup Pair2 \cup PairMulti
   \cup Curs \cup MarkBase \cup MarkBaseMulti \cup MarkLig \cup MarkMark \cup Ctx \cup Multi
   \cup KernFallback \cup KernWithGpos \cup KernWithDist
+  \cup SingleFlagG \cup Pair1LongG \cup MarkBaseG \cup MarkLigG \cup MarkMarkG \cup CtxG \cup MultiG \cup KernWithGposG
 
 \* thorough: one more glyph per string
 LenOf(t) == IF Quick THEN t.n ELSE t.n + 1
@@ -340,34 +445,85 @@ Next == done = FALSE /\ done' = TRUE /\ UNCHANGED <<tpl, w>>
 Spec == Init /\ [][Next]_vars
 
 \* ---- well-formedness of the generated programs (the fragment the spec covers) --------------
+\* MarkBase: base coverages list no GDEF marks (a GDEF mark is never found as a base).
+\* Mark coverages may list any glyph: whether GDEF classes it as a mark is the font's business.
 MarkCovOK(prog) ==
   \A k \in 1 .. Len(prog.lookups) :
     LET L == prog.lookups[k] IN
-    L.ty \in {4, 5, 6} =>
-      \A m \in 1 .. Len(L.subs) :
-        /\ \A g \in Range(L.subs[m].mcov.g) : IsMarkGlyph(prog.gdef, g)
-        /\ L.ty = 4 => \A g \in Range(L.subs[m].bcov.g) : ~IsMarkGlyph(prog.gdef, g)
-        /\ L.ty = 6 => \A g \in Range(L.subs[m].bcov.g) : IsMarkGlyph(prog.gdef, g)
-ProgWF(prog) == MarkCovOK(prog) /\ KernWF(prog.kern)
+    L.ty = 4 => \A m \in 1 .. Len(L.subs) : \A g \in Range(L.subs[m].bcov.g) : ~IsMarkGlyph(prog.gdef, g)
+\* MarkMark: every glyph that can count as a mark (GDEF class 3, or listed in a mark coverage)
+\* and that the lookup's flag sees is listed in its Mark2Coverage ("the flag filters exactly the
+\* base marks").  Outside this fragment allsorts attaches to the nearest preceding COVERED mark of
+\* the mark run rather than to the preceding seen glyph (suspected deviation, notes/C05.md).
+MayBeMark(prog) == {g \in Glyphs(prog.gdef) : IsMarkGlyph(prog.gdef, g)} \cup MarkCovGlyphs(prog, {4, 5, 6})
+MkMkFragment(prog) ==
+  \A k \in 1 .. Len(prog.lookups) :
+    LET L == prog.lookups[k] IN
+    L.ty = 6 => \A m \in 1 .. Len(L.subs) : \A g \in MayBeMark(prog) :
+                   Sees(FlagOf(L), prog.gdef, g) => Covered(L.subs[m].bcov, g)
+GdefWF(gdef) == /\ gdef.tab \in {"full", "noclassdef", "absent"}
+                /\ Len(gdef.cls) = Len(gdef.att)
+ProgWF(prog) == MarkCovOK(prog) /\ MkMkFragment(prog) /\ KernWF(prog.kern) /\ GdefWF(prog.gdef)
 
 ASSUME \A t \in Templates : ProgWF(t.prog)
 ASSUME \A t \in Templates : PrintT(<<"TPL", ToJson([id |-> t.id, prog |-> t.prog])>>)
 
 \* ---- invariants --------------------------------------------------------------------------
+\* a covered mark right after a covered base that has an anchor for its class is attached to it
+\* in every reading, whatever GDEF says about the mark (single-lookup MarkBase programs)
+CoveredMarkAttached(o) ==
+  (Len(tpl.prog.lookups) = 1 /\ tpl.prog.lookups[1].ty = 4 /\ Len(tpl.prog.lookups[1].subs) = 1) =>
+    LET st == tpl.prog.lookups[1].subs[1] IN
+    \A j \in 2 .. Len(w) :
+      (/\ MarkBaseOk(st, w[j - 1].g, w[j].g)
+       /\ ~IsMarkGlyph(tpl.prog.gdef, w[j - 1].g)
+       /\ ~Covered(st.mcov, w[j - 1].g)) => (o[j].pl.t = "M" /\ o[j].pl.i = j - 2)
+
+KernDesignOK ==
+  UsesKernTable(tpl.prog) =>
+    \A D \in DevsFor(tpl.prog) : KernStreamsSeparate(D, tpl.prog.kern, [j \in 1 .. Len(w) |-> w[j].g])
+
 DesignOKOn(outs) ==
   \A o \in outs :
-    /\ Modelled(o) /\ GlyphsKept(w, o) /\ AttachInRun(o) /\ PosWF(o)
+    /\ Modelled(o)
+    /\ CoveredMarkAttached(o) /\ GlyphsKept(w, o) /\ AttachInRun(o) /\ PosWF(o)
     /\ MarkRelativeToBase(o, tpl.prog.adv)
     /\ JoinHolds(o, tpl.prog.adv)
     /\ AdvanceIsSum(o, tpl.prog.adv)
     /\ ChainAnchorStays(o)
 
+\* vacuity tags: which of the families of behaviour the case exercises (counted by the harness,
+\* the driver refuses a run in which one of them is never exercised)
+KernPairHit(sel(_)) ==
+  /\ UsesKernTable(tpl.prog)
+  /\ \E j \in 1 .. (Len(w) - 1) : \E k \in 1 .. Len(tpl.prog.kern) :
+        LET x == KernValue(DevDefault, tpl.prog.kern[k], w[j].g, w[j + 1].g) IN
+        sel(tpl.prog.kern[k]) /\ x.has /\ x.v # 0
+IsVertical(st) == ~KernHorizontal(st)
+VacTags(outs) ==
+  LET P == tpl.prog  g == P.gdef
+      dflt == Proj(Shape(DevDefault, P, w))
+      tag(c, t) == IF c THEN {t} ELSE {} IN
+  tag(P.gpos /\ g.tab = "absent", "gdef-absent")
+  \cup tag(P.gpos /\ g.tab = "noclassdef", "gdef-noclassdef")
+  \cup tag(\E j \in 1 .. Len(w) : dflt[j].pl.t = "M" /\ ~IsMarkGlyph(g, w[j].g), "attached-mark-not-gdef-mark")
+  \cup tag(\E j \in 1 .. Len(w) : dflt[j].pl.t = "M" /\ GClass(g, w[j].g) = 1, "attached-mark-gdef-base")
+  \cup tag(\E D \in DevsFor(P) : D.mkDyn = FALSE /\ Proj(Shape(D, P, w)) # Proj(Shape([D EXCEPT !.mkDyn = TRUE], P, w)),
+           "reading-attached-is-mark-matters")
+  \cup tag(\E D \in DevsFor(P) : D.mkmkTest = "none" /\ Proj(Shape(D, P, w)) # Proj(Shape([D EXCEPT !.mkmkTest = "both"], P, w)),
+           "reading-markmark-class-test-matters")
+  \cup tag(KernPairHit(KernAcrossStream), "kern-cross-stream-pair-hit")
+  \cup tag(KernPairHit(IsVertical), "kern-vertical-pair-hit")
+  \cup tag(KernPairHit(KernAcrossStream) /\ KernPairHit(KernWithStream), "kern-cross-and-with-stream-hit")
+  \cup tag(KernPairHit(KernAcrossStream) /\ \E o \in outs : \E j \in 1 .. Len(w) : o[j].pl # dflt[j].pl,
+           "reading-kern-cross-shift-matters")
+
 EmitOn(outs) ==
-  PrintT(<<"CASE", ToJson([id |-> tpl.id, in |-> w,
+  PrintT(<<"CASE", ToJson([id |-> tpl.id, in |-> w, vac |-> SetToSeq(VacTags(outs)),
                            exp |-> SetToSeq({[infos |-> o,
                                               ltr |-> Canon(o, tpl.prog.adv, "ltr"),
                                               rtl |-> Canon(o, tpl.prog.adv, "rtl")] : o \in outs})])>>)
 
 \* the design properties hold for every outcome of every case, and the case is printed
-CaseOK == done => LET outs == Outcomes(tpl.prog, w) IN DesignOKOn(outs) /\ EmitOn(outs)
+CaseOK == done => LET outs == Outcomes(tpl.prog, w) IN DesignOKOn(outs) /\ KernDesignOK /\ EmitOn(outs)
 =============================================================================
